@@ -17,9 +17,10 @@ import (
 // C07: realtime entities merge order-independently into unique, sorted trips/vehicles.
 
 type CaseC07Perm struct {
-	Zone string
-	Msg  *rgen.Msg
-	Perm []int // entity i of the permuted message is entity Perm[i] of Msg
+	Zone    string
+	Msg     *rgen.Msg
+	Perm    []int    // entity i of the permuted message is entity Perm[i] of Msg
+	Primers []Primer `json:",omitempty"` // earlier unrelated calls, repeated before each of the two parses
 }
 
 var c07PermRec = vt.NewRecorder("C07", "TestC07Perm",
@@ -70,7 +71,7 @@ func checkC07Perm(c CaseC07Perm) error {
 		}
 		seen[p] = true
 	}
-	base, err := parseRT(CaseRT{Zone: c.Zone, Msg: c.Msg}, nil)
+	base, err := parseRT(CaseRT{Zone: c.Zone, Msg: c.Msg, Primers: c.Primers}, nil)
 	if err != nil {
 		return vt.Failf("ParseRealtime rejected a well-formed message: %v", err)
 	}
@@ -80,7 +81,7 @@ func checkC07Perm(c CaseC07Perm) error {
 		return vt.Failf("original order: %v", err)
 	}
 	pm := permuteMsg(c.Msg, c.Perm)
-	pr, err := parseRT(CaseRT{Zone: c.Zone, Msg: pm}, nil)
+	pr, err := parseRT(CaseRT{Zone: c.Zone, Msg: pm, Primers: c.Primers}, nil)
 	if err != nil {
 		return vt.Failf("ParseRealtime rejected the permuted message: %v", err)
 	}
@@ -160,6 +161,7 @@ func TestC07Perm(t *testing.T) {
 			o.MaxTrips, o.MaxVehicles = 8, 6
 		}
 		m, info := rgen.GenMsg(t, o)
+		primers := genPrimers(t, zone, m)
 		n := len(m.Entities)
 		var perms [][]int
 		if n <= 4 {
@@ -175,7 +177,7 @@ func TestC07Perm(t *testing.T) {
 			perms = append(perms, rev)
 		}
 		for _, p := range perms {
-			c := CaseC07Perm{Zone: zone, Msg: m, Perm: p}
+			c := CaseC07Perm{Zone: zone, Msg: m, Perm: p, Primers: primers}
 			identity := true
 			for i, x := range p {
 				if i != x {
@@ -185,6 +187,9 @@ func TestC07Perm(t *testing.T) {
 			cls := "single-mention"
 			if info.MultiMention > 0 {
 				cls = "multi-mention"
+			}
+			if len(primers) > 0 {
+				c07PermRec.Class("after-earlier-calls")
 			}
 			c07PermRec.Eval(cls)
 			if info.MultiMention > 0 && !identity {
@@ -298,7 +303,7 @@ func TestC07Any(t *testing.T) {
 	rapid.Check(t, func(t *rapid.T) {
 		zone := rapid.SampledFrom([]string{"", "America/New_York"}).Draw(t, "zone")
 		m, dup := genAnyMsg(t, zone)
-		c := CaseRT{Zone: zone, Msg: m}
+		c := CaseRT{Zone: zone, Msg: m, Primers: genPrimers(t, zone, m)}
 		cls := "no-duplicate"
 		if dup {
 			cls = "conflicting-duplicate"
